@@ -369,7 +369,7 @@ pub fn run(ctx: &Ctx) -> Report {
                 let base = &bases[*cfg];
                 let mut rng = Rng::derive(seed, "c04-rescope", mix2(*cfg as u64, *index));
                 for _ in 0..*n {
-                    let mut pick = |rng: &mut Rng| {
+                    let pick = |rng: &mut Rng| {
                         let a = rng.usize_below(POSITIONS + 1);
                         let b = a + rng.usize_below(POSITIONS - a + 1);
                         (from_linear(a), from_linear(b))
